@@ -549,7 +549,7 @@ func oracle(c *Case, res *runResult) ([]*evid.Violation, *stats) {
 				if hi > len(logText) {
 					hi = len(logText)
 				}
-				addV(evid.V("secret-in-log-"+s.Kind, "the %s of host %d appears in the log output (%s): …%s…", s.Kind, s.Owner, c.LogVia, logText[lo:hi]))
+				addV(evid.V("secret-in-log-"+s.Kind, "the %s of host %d appears in the log output (handler %q, logger enabled for level %q): …%s…", s.Kind, s.Owner, c.LogVia, c.LogLevel, logText[lo:hi]))
 				break
 			}
 		}
@@ -796,6 +796,19 @@ func caseClasses(c *Case, res *runResult, st *stats) []string {
 	}
 	if c.DefTLS != "" || c.DefRepoAuth || c.DefHelper {
 		add("config-host-default:tls=" + c.DefTLS)
+	}
+	lvl := c.LogLevel
+	if lvl == "" {
+		lvl = "trace"
+	}
+	add("log-level:" + lvl)
+	for _, e := range ents {
+		if (e.Fault == "reset-before" || e.Fault == "reset-after" || e.Fault == "truncate" || e.Fault == "ctx") &&
+			(e.Header.Get("Authorization") != "" || (strings.HasPrefix(e.Path, "/token/") && len(e.Body) > 0)) {
+			add("observed:transport-failure-on-request-with-authorization")
+			add("observed:transport-failure-with-authorization-at-level-" + lvl)
+			break
+		}
 	}
 	if c.DefHelper {
 		add("config-host-default:cred-helper")
